@@ -29,10 +29,13 @@ TRUSTED = [
     "ConjunctiveGraph(store).quads and store.contexts()",
     "rdflib's SPARQL parser/translateUpdate (request text -> algebra; the WHERE algebra of ModifyW operations is read off "
     "translateUpdate's output node by node)",
-    "for operations whose WHERE is NOT in the fragment BGP/Join/GRAPH (OPTIONAL, UNION, FILTER) and for DELETE WHERE: the "
-    "SELECT engine that produces the solution lists handed to the model (property C04's subject); for ModifyW operations "
-    "nothing of the engine is trusted: the model evaluates the WHERE clause itself (C04's model of evalPart) and the "
-    "specification by the bottom-up algebra",
+    "for operations whose solution list is an input (Modify / ModifyS: OPTIONAL, UNION, FILTER, sub-select; DeleteWhere): "
+    "rdflib's SELECT engine evaluates the WHERE pattern correctly on a given store (property C04's subject). CHECKED, no "
+    "longer assumed: that the list handed to the model is the pattern's value on the state just before the operation - while "
+    "the real request runs, the inner store is copied when evalModify / evalDeleteWhere is entered and the pattern is "
+    "evaluated again on that copy; a difference poisons the observation. Still assumed: that evalModify evaluates that very "
+    "pattern over that very dataset (for the fragment BGP/Join/GRAPH this is modelled and proved instead: ModifyW, "
+    "DeleteWhereW, where nothing of the engine is trusted)",
     "coq/Sparql (property C04): its model of evaluate.py and its theorem C04_pushdown are reused, not re-proved",
     "rdflib.plugins.stores.memory.Memory add/remove/remove_graph/contexts (properties C01/C02)",
 ]
@@ -55,6 +58,8 @@ ASSUMPTIONS = [
 RULE = (
     "1-3 operations over 1-3 graphs (graph ids 1,2,5 addressable, 3 blank-node named), 3 subjects x 2 predicates x 5 objects; "
     "templates are drawn from variables s,p,o,z,g so that one solution's insertion is another's deletion (swap on 2-cycles); "
+    "INSERT templates with blank nodes get, half of the time, a WHERE whose solution SEQUENCE repeats a solution (nested or "
+    "bare sub-select projecting a variable away, overlapping UNION); "
     "55 % of the DELETE/INSERT operations have their WHERE clause (BGP, joins, GRAPH <iri>, GRAPH ?g) evaluated by the "
     "model (ModifyW), the others get the solution list of a SELECT; CREATE [SILENT] in 8 % of the management operations; "
     "WITH x {none, USING, USING + USING NAMED, USING NAMED only}; 35 % of the cases spell graphs as repeated, interleaved "
@@ -115,7 +120,14 @@ WHERES = [
     ("?s ?p ?o . GRAPH ?g { ?o ?p ?z }", True),
     ("GRAPH ?g { ?s <http://e/p> ?o } . ?o ?p ?z", True),
     ("GRAPH <urn:g:1> { ?s ?p ?o } . GRAPH ?g { ?o ?p ?s }", True),
+    # solution sequences with repeated solutions (one template instantiation, one fresh node, per occurrence)
+    ("{ SELECT ?s WHERE { ?s ?p ?o } }", False),
+    ("{ ?s <http://e/p> ?o } UNION { ?s ?p ?o }", False),
+    # the WHERE clause is one sub-select (u.where is the sub-select itself, no Join(BGP [], ...) on top): ModifyS
+    ("SELECT ?s WHERE { ?s ?p ?o }", False),
 ]
+BARE_WHERES = [k for k, (t, _) in enumerate(WHERES) if t.startswith("SELECT")]
+DUP_WHERES = [k for k, (t, _) in enumerate(WHERES) if t.startswith("{ SELECT") or (" UNION { ?s ?p ?o }" in t)]
 WHERE_OF_GRAPH = {1: 5, 2: 8, 5: 9}  # graph id -> index of the pattern GRAPH <that graph> { ?s ?p ?o }
 
 
@@ -227,7 +239,7 @@ def r_op(op, split=False):
         return "DELETE DATA { %s }" % r_data(op[1], op[2], split)
     if k in ("delwhere", "delwherew"):
         return "DELETE WHERE { %s }" % r_tmpl(op[1], split)
-    if k in ("modify", "modifyw"):
+    if k in ("modify", "modifyw", "modifys"):
         _, w, ud, un, d, i, wk = op
         s = ""
         if w is not None:
@@ -321,9 +333,9 @@ def c_op(op, om):
         _, w, ud, un, d, i, wk = op
         return "ModifyW %s %s %s %s %s %s" % (copt(w, cN), clist(cN(c) for c in ud), clist(cN(c) for c in un),
                                              copt(d, c_tmpl), copt(i, c_tmpl), where_alg(wk))
-    if k == "modify":
+    if k in ("modify", "modifys"):
         _, w, ud, un, d, i, wk = op
-        return "Modify %s %s %s %s %s %s" % (copt(w, cN), cbool(ud), cbool(un), copt(d, c_tmpl), copt(i, c_tmpl), c_omega(om))
+        return ("ModifyS" if k == "modifys" else "Modify") + " %s %s %s %s %s %s" % (copt(w, cN), cbool(ud), cbool(un), copt(d, c_tmpl), copt(i, c_tmpl), c_omega(om))
     if k == "create":
         return "Create %s %s" % (cbool(op[1]), cN(op[2]))
     con = {"clear": "Clear", "drop": "Drop", "add": "Add", "move": "Move", "copy": "Copy"}[k]
@@ -454,7 +466,7 @@ class C10(Suite):
     case_ty = "case"
     obs_ty = "obs"
     kf = "kf"
-    kf_ids = {2: "F10i"}
+    kf_ids = {4: "F10l"}
     corr = ("update.evalUpdate/evalInsertData/evalDeleteData/evalDeleteWhere/evalModify/evalClear/evalDrop/evalAdd/"
             "evalMove/evalCopy/_graphAll/_graphOrDefault, evalutils._fillTemplate")
     quick_n = 900
@@ -567,9 +579,9 @@ class C10(Suite):
             # prescribed one agree: GRAPH <a graph listed in USING NAMED>
             wk = WHERE_OF_GRAPH[rng.choice(un)]
         elif w is not None or ud or plain:
-            wk = rng.choice([k for k, (_, g) in enumerate(WHERES) if not g])
+            wk = rng.choice([k for k, (_, g) in enumerate(WHERES) if not g and k not in BARE_WHERES])
         else:
-            wk = rng.randrange(len(WHERES))
+            wk = rng.choice([k for k in range(len(WHERES)) if k not in BARE_WHERES])
         x = rng.random()
         d = gen_tmpl(rng, False, allow_q, fat=fat) if x < 0.75 else None
         i = gen_tmpl(rng, True, allow_q, fat=fat) if x > 0.2 else None
@@ -578,6 +590,11 @@ class C10(Suite):
             d["t"] = [[["v", 1], ["v", 2], ["v", 3]]]
             i["t"] = [[["v", 3], ["v", 2], ["v", 1]]] + i["t"][:1]
         kind = "modify"
+        if tmpl_has_bnode(i) and rng.random() < 0.5:
+            # a solution SEQUENCE with repeated solutions: every occurrence instantiates the template, with its own
+            # fresh nodes (sub-select that projects the distinguishing variable away; UNION of overlapping branches)
+            wk = rng.choice(DUP_WHERES + BARE_WHERES)
+            return ["modifys" if wk in BARE_WHERES else kind, w, ud, un, d, i, wk]
         if rng.random() < 0.55:
             # the model evaluates the WHERE clause itself (operation ModifyW): any pattern of the fragment
             # BGP / Join / GRAPH under any WITH / USING / USING NAMED combination, also where rdflib's
@@ -667,7 +684,7 @@ class C10(Suite):
         case["omegas"] = omegas
         try:
             for k, op in enumerate(ops):
-                if op[0] in ("delwhere", "modify"):
+                if op[0] in ("delwhere", "modify", "modifys"):
                     store, front, default = self._fresh(case, union)
                     try:
                         if k:
@@ -680,10 +697,13 @@ class C10(Suite):
                         omegas[k] = []
             store, front, default = self._fresh(case, union)
             raised = False
+            mismatch = self._watch_solution_lists(case, store, default)
             try:
                 front.update(r_request(ops, split, spell))
             except Exception:  # noqa: BLE001
                 raised = True
+            finally:
+                self._unwatch()
             extra = {}
             quads = []
             for s, p, o, g in ConjunctiveGraph(store=store, identifier=default).quads((None, None, None)):
@@ -697,10 +717,94 @@ class C10(Suite):
             quads = sorted([order.get(x, x) for x in q[:3]] + [q[3]] for q in quads)
             quads = [list(q) for q in sorted(set(tuple(q) for q in quads))]
             known = sorted({gid(c.identifier, default) for c in store.contexts()} - {0})
+            if mismatch:
+                # the solution list handed to the model is not what the WHERE pattern yields on the store as it
+                # was just before that operation: poison the observation so that the case is reported
+                quads = [[996, 996, 996, 996]] + quads
             return {"quads": quads, "known": known, "raised": raised}
         finally:
             SP.SPARQL_DEFAULT_GRAPH_UNION = True
             SP.SPARQL_LOAD_GRAPHS = True
+
+    # ---- tie of the GIVEN solution lists (Modify / DeleteWhere) to the state before the operation: while the
+    # real request runs, every top-level evaluator call is counted; when evalModify / evalDeleteWhere is entered for
+    # an operation whose solution list is an input of the model, the inner store is copied as it is at that moment
+    # and the WHERE pattern is evaluated on the copy; the result must be the list computed beforehand (on a store
+    # on which the prefix of the request had been replayed)
+    _EVALS = ("evalLoad", "evalClear", "evalDrop", "evalCreate", "evalAdd", "evalMove", "evalCopy",
+              "evalInsertData", "evalDeleteData", "evalDeleteWhere", "evalModify")
+
+    def _watch_solution_lists(self, case, store, default):
+        import rdflib.plugins.sparql.update as UPD
+        mismatch = []
+        state = {"k": -1, "depth": 0}
+        self._saved = {n: getattr(UPD, n) for n in self._EVALS}
+        suite = self
+
+        def wrap(name, fn):
+            def inner(ctx, u):
+                top = state["depth"] == 0
+                if top:
+                    state["k"] += 1
+                    k = state["k"]
+                    op = case["ops"][k] if k < len(case["ops"]) else None
+                    if op is not None and op[0] in ("modify", "modifys", "delwhere") and name in ("evalModify", "evalDeleteWhere"):
+                        try:
+                            st2 = Memory()
+                            for s_, p_, o_, g_ in ConjunctiveGraph(store=store, identifier=default).quads((None, None, None)):
+                                Graph(store=st2, identifier=g_.identifier).add((s_, p_, o_))
+                            fe = case["fe"]
+                            if fe == "cg":
+                                front2 = ConjunctiveGraph(store=st2, identifier=DEFAULT_CG)
+                            elif fe == "ds":
+                                front2 = Dataset(store=st2)
+                            else:
+                                front2 = Graph(store=st2, identifier=gname(fe[1], default))
+                            now = suite._omega(case, op, st2, front2, default)
+                            if sorted(now) != sorted(case["omegas"][k]):
+                                mismatch.append(k)
+                        except Exception:  # noqa: BLE001
+                            if case["omegas"][k]:
+                                mismatch.append(k)
+                state["depth"] += 1
+                try:
+                    return fn(ctx, u)
+                finally:
+                    state["depth"] -= 1
+            return inner
+
+        for n, fn in self._saved.items():
+            setattr(UPD, n, wrap(n, fn))
+        return mismatch
+
+    def _unwatch(self):
+        import rdflib.plugins.sparql.update as UPD
+        for n, fn in getattr(self, "_saved", {}).items():
+            setattr(UPD, n, fn)
+        self._saved = {}
+
+    @staticmethod
+    def _in_scope(case):
+        """mirror of Model.in_scope, for the evidence only: is the request judged by the specification, or (plain
+        Graph with an operation that needs named graphs; CREATE without SILENT) by model = implementation alone?"""
+        def needs_dataset(o):
+            k = o[0]
+            if k in ("insdata", "deldata"):
+                return bool(o[2])
+            if k in ("delwhere", "delwherew"):
+                return bool(o[1]["q"])
+            if k in ("modify", "modifyw", "modifys"):
+                return (o[1] is not None or bool(o[2]) or bool(o[3]) or any(t is not None and t["q"] for t in (o[4], o[5]))
+                        or (k == "modifyw" and WHERES[o[6]][1]))
+            if k in ("clear", "drop"):
+                return o[2] != "default"
+            if k == "create":
+                return True
+            return not (o[2] == "default" and o[3] == "default")
+        ops = case["ops"]
+        if any(o[0] == "create" and not o[1] for o in ops):
+            return False
+        return isinstance(case["fe"], str) or not any(needs_dataset(o) for o in ops)
 
     def on_timeout(self, case):
         case.setdefault("omegas", [[] for _ in case["ops"]])
@@ -729,6 +833,8 @@ class C10(Suite):
              "raised": int(obs["raised"]), "changed": int(sorted(obs["quads"]) != sorted(case["quads"])),
              "fresh_bnodes": int(any(x >= 2000 for q in obs["quads"] for x in q[:3])),
              "split_graph_groups": int(bool(case.get("split"))),
+             "judged_by_specification": int(self._in_scope(case)),
+             "out_of_scope_model_equals_impl_only": int(not self._in_scope(case)),
              "spelled_with_prologues": int(case.get("spell") is not None),
              "prologue_changes_within_request": int(case.get("spell") is not None and len(case["ops"]) > 1)}
         for k, o in enumerate(case["ops"]):
@@ -737,7 +843,7 @@ class C10(Suite):
                 f["modify_where_in_model"] = f.get("modify_where_in_model", 0) + 1
                 if o[2] or o[3]:
                     f["modify_where_in_model_using"] = f.get("modify_where_in_model_using", 0) + 1
-            if o[0] == "modify":
+            if o[0] in ("modify", "modifys"):
                 om = (case.get("omegas") or [[]] * (k + 1))[k]
                 f["modify_solutions_%s" % ("0" if not om else ("1" if len(om) == 1 else "many"))] = \
                     f.get("modify_solutions_%s" % ("0" if not om else ("1" if len(om) == 1 else "many")), 0) + 1
@@ -766,7 +872,7 @@ class C10(Suite):
         for i in range(len(case["empty"])):
             yield dict(base, empty=case["empty"][:i] + case["empty"][i + 1:])
         for i, op in enumerate(ops):
-            if op[0] in ("modify", "modifyw"):
+            if op[0] in ("modify", "modifyw", "modifys"):
                 for j in (4, 5):
                     tm = op[j]
                     if tm is None:
